@@ -7,16 +7,14 @@ package girc
 import (
 	"bytes"
 	"fmt"
-	"net/url"
 	"regexp"
 	"strings"
 	"unicode/utf8"
 )
 
 const (
-	fmtOpenChar        = '{'
-	fmtCloseChar       = '}'
-	maxWordSplitLength = 30
+	fmtOpenChar  = '{'
+	fmtCloseChar = '}'
 )
 
 var (
@@ -377,13 +375,18 @@ func sliceInsert(input []string, i int, v ...string) []string {
 }
 
 // splitMessage is a text splitter that takes into consideration a few things:
-//   - Ensuring the returned text is no longer than maxWidth.
-//   - Attempting to split at the closest word boundary, while still staying inside
-//     of the specific maxWidth.
-//   - if there is no good word boundary for longer words (or e.g. links, raw data, etc)
-//     that are above maxWordSplitLength characters, split the word into chunks to fit the
+//   - Ensuring each returned line is no longer than maxWidth bytes (the protocol
+//     limit is in bytes, not in characters).
+//   - Splitting at word boundaries where possible. A word that does not fit on
+//     the current line is moved to the next line as a whole if it fits there.
+//   - A word that does not fit on a line of its own (e.g. links, raw data) is
+//     cut into chunks at character (rune) boundaries. Nothing is ever dropped
+//     from a word, and two words are never joined without a separator.
+//   - Active formatting/color codes are repeated at the start of each new line.
 //
-// maximum width.
+// Text consisting only of whitespace yields no lines at all. If maxWidth is
+// smaller than a single multi-byte character, a line holds that one character
+// (and so exceeds maxWidth by at most utf8.UTFMax-1 bytes).
 func splitMessage(input string, maxWidth int) (output []string) {
 	input = strings.ToValidUTF8(input, "?")
 
@@ -395,7 +398,7 @@ func splitMessage(input string, maxWidth int) (output []string) {
 		return false
 	})
 
-	output = []string{""}
+	output = []string{}
 	codes := []string{}
 
 	var lastColor string
@@ -413,15 +416,40 @@ func splitMessage(input string, maxWidth int) (output []string) {
 		words = sliceInsert(words, i+1, "", strings.TrimLeft(word[j:], "\n\r"))
 	}
 
+	// cur is the line being filled; hasText is true once it holds (part of) a
+	// word, rather than only the formatting codes carried over.
+	var cur string
+	var hasText bool
+
+	// prefix returns the active formatting codes that a new line starts with.
+	// It is dropped if it would not leave room for at least one character.
+	prefix := func() string {
+		p := strings.Join(codes, "") + lastColor
+		if len(p)+utf8.UTFMax > maxWidth {
+			return ""
+		}
+		return p
+	}
+
+	flush := func() {
+		output = append(output, cur)
+		cur, hasText = prefix(), false
+	}
+
+	add := func(text string) {
+		if hasText {
+			cur += " "
+		}
+		cur += text
+		hasText = true
+	}
+
 	for _, word := range words {
 		// Used in place of a single newline.
 		if word == "" {
-			// Last line was already empty or already only had control characters.
-			if output[len(output)-1] == "" || output[len(output)-1] == lastColor+word {
-				continue
+			if hasText {
+				flush()
 			}
-
-			output = append(output, strings.Join(codes, "")+lastColor+word)
 			continue
 		}
 
@@ -469,57 +497,46 @@ func splitMessage(input string, maxWidth int) (output []string) {
 			}
 		}
 
-	checkappend:
-
-		// Check if we can append, otherwise we must split.
-		if 1+utf8.RuneCountInString(word)+utf8.RuneCountInString(output[len(output)-1]) < maxWidth {
-			if output[len(output)-1] != "" {
-				output[len(output)-1] += " "
+		for word != "" {
+			// How many bytes are left on the current line, counting the
+			// separating space.
+			room := maxWidth - len(cur)
+			if hasText {
+				room--
 			}
-			output[len(output)-1] += word
-			continue
-		}
 
-		// If the word can fit on a line by itself, check if it's a url. If it is,
-		// put it on it's own line.
-		if utf8.RuneCountInString(word+strings.Join(codes, "")+lastColor) < maxWidth {
-			if _, err := url.Parse(word); err == nil {
-				output = append(output, strings.Join(codes, "")+lastColor+word)
+			if len(word) <= room {
+				add(word)
+				break
+			}
+
+			// The word doesn't fit. If the line already has text, start a new
+			// line when the whole word fits there, or when there isn't even
+			// room for a single character on this one.
+			if hasText && (len(prefix())+len(word) <= maxWidth || room < utf8.UTFMax) {
+				flush()
 				continue
 			}
-		}
 
-		// Check to see if we can split by misc symbols, but must be at least a few
-		// characters long to be split by it.
-		if j := strings.IndexAny(word, "-+_=|/~:;,."); j > 3 && 1+utf8.RuneCountInString(word[0:j])+utf8.RuneCountInString(output[len(output)-1]) < maxWidth {
-			if output[len(output)-1] != "" {
-				output[len(output)-1] += " "
+			// Otherwise cut the word at the last character boundary that fits
+			// (always at least one character on an otherwise empty line).
+			n := 0
+			for n < len(word) {
+				_, size := utf8.DecodeRuneInString(word[n:])
+				if n+size > room && (n > 0 || hasText) {
+					break
+				}
+				n += size
 			}
-			output[len(output)-1] += word[0:j]
-			word = word[j+1:]
-			goto checkappend
+
+			add(word[:n])
+			word = word[n:]
+			flush()
 		}
+	}
 
-		// If the word is longer than is acceptable to just put on the next line,
-		// split it into chunks. Also don't split the word if only a few characters
-		// left of the word would be on the next line.
-		if 1+utf8.RuneCountInString(word) > maxWordSplitLength && maxWidth-utf8.RuneCountInString(output[len(output)-1]) > 5 {
-			left := maxWidth - utf8.RuneCountInString(output[len(output)-1]) - 1 // -1 for the space
-
-			if output[len(output)-1] != "" {
-				output[len(output)-1] += " "
-			}
-			output[len(output)-1] += word[0:left]
-			word = word[left:]
-			goto checkappend
-		}
-
-		left := maxWidth - utf8.RuneCountInString(output[len(output)-1])
-		output[len(output)-1] += word[0:left]
-
-		output = append(output, strings.Join(codes, "")+lastColor)
-		word = word[left:]
-		goto checkappend
+	if hasText {
+		output = append(output, cur)
 	}
 
 	for i := 0; i < len(output); i++ {
